@@ -29,17 +29,14 @@ Not decided: clock skew between worker and driver timestamps (values are arbitra
 from __future__ import annotations
 
 import ast
-import itertools
-from typing import Any, Dict, Iterator, List, Optional, Set, Tuple
+from typing import Any, Dict, List, Optional, Set, Tuple
 
 from engines import attemptfacts as af
-from engines import callsites as cs
 from engines import pyfacts as pf
 from engines import sqlfront as sf
 from engines import sqlrules as sr
 from engines.common import AnalysisError, Ctx
 from engines.sqlast import N, parse_expr, text
-from engines.sqleval import ev, _truth
 
 META = dict(
     category='proof',
@@ -49,7 +46,8 @@ META = dict(
     note='Trusted: SQL parser and evaluator; MySQL BEFORE UPDATE semantics (NEW row = SET list applied to OLD, then the trigger); one arithmetic fact: '
          'max(r - s, 0) is monotone in r and antitone in s.  Parameter NULL-ness and reason values are taken from the Python call sites where resolvable, otherwise unconstrained. '
          'mark_job_errored is assumed to report an attempt that has not been billed yet (recorded assumption); R4 trusts that the in-memory instance state does not change between its test and the CALL.',
-    technique='static analysis: exhaustive abstract interpretation of the trigger AST over a finite order domain (no solver, code not run)',
+    technique='static analysis: exhaustive abstract interpretation of the trigger AST over a finite order domain, symbolic max/min-linear normal form of writer expressions, '
+              'call-chain tracing with guard dominance for the reason precondition (no solver, code not run)',
     design_ref='DESIGN.md §3 C03',
 )
 
@@ -351,7 +349,7 @@ def r4_zeroing_reason_precondition(ctx: Ctx, prog: sf.SqlProgram, trig: sf.Routi
         return
     pending = never_activated_states(ctx)
     calls = af.proc_calls(ctx, prog)
-    seen: Set[Tuple[str, int, str]] = set()
+    sites: Dict[Tuple[str, int, str], List[Tuple[Writer, Tuple[af.Frame, ...]]]] = {}
     for w in ws:
         if not w.assigns or not any(c == 'reason' for c, _ in w.assigns):
             continue
@@ -377,68 +375,77 @@ def r4_zeroing_reason_precondition(ctx: Ctx, prog: sf.SqlProgram, trig: sf.Routi
                 raise AnalysisError(f'{w.wid}: a reason value reaching this statement is not a resolvable string literal ({note}); cannot tell whether {sorted(zeroing)} is reported')
             if value is None or value not in zeroing:
                 continue
-            src = frames[0]
-            key = (src.m.rel, src.call.lineno, value)
-            if key in seen:
-                continue
-            seen.add(key)
-            cons = f'{src.label}::{pf.nsrc(src.call)[:80]}::reason \'{value}\''
-            verdicts = []
-            opaque: List[str] = []
-            ok = False
-            conds_of = [path_conditions(fr.m, fr.fn, fr.call) if fr.fn is not None else [] for fr in frames]
-            # (1) one hop alone confines the state of an object it passes on
-            for fr, conds in zip(frames, conds_of):
-                for subj in _subjects(fr.call):
-                    facts = StateFacts(subj)
-                    acc = TOP
-                    for t, pol in conds:
-                        acc = _inter(acc, facts.when_true(t) if pol else facts.when_false(t))
-                    opaque += facts.opaque
-                    if acc[0] and acc[1] <= pending:
-                        ok = True
-                    elif acc != TOP:
-                        verdicts.append((fr, subj, acc))
-            # (2) the same object followed through the hops (argument / receiver binding): its constraints add up
-            if not ok:
-                for per in _tracked_subjects(frames):
-                    acc = TOP
-                    for subj, conds in zip(per, conds_of):
-                        if subj is None:
-                            continue
-                        facts = StateFacts(subj)
-                        for t, pol in conds:
-                            acc = _inter(acc, facts.when_true(t) if pol else facts.when_false(t))
-                    if acc[0] and acc[1] <= pending:       # includes the empty set: the hops exclude each other, the CALL is never reached
-                        ok = True
-                        break
-                    if acc != TOP:
-                        first = next(i for i, x in enumerate(per) if x is not None)
-                        verdicts.insert(0, (frames[first], per[first], acc))
+            sites.setdefault((frames[0].m.rel, frames[0].call.lineno, value), []).append((w, frames))
+    # one instance per site that names the literal; it holds iff every chain from that site down to a CALL establishes the precondition
+    for (rel, lineno, value), chains in sorted(sites.items(), key=lambda kv: kv[0]):
+        src = chains[0][1][0]
+        cons = f'{src.label}::{pf.nsrc(src.call)[:80]}::reason \'{value}\''
+        bad = None
+        good = []
+        for w, frames in chains:
             chain = ' -> '.join(f.label.split('::', 1)[1] for f in frames) + f' -> {w.wid}'
+            ok, verdicts, opaque = _chain_precondition(frames, pending)
             if ok:
-                ctx.ok('R4', cons, {'chain': chain, 'never_activated_states': sorted(pending)})
+                good.append(chain)
                 continue
             if opaque:
                 raise AnalysisError(f'{cons}: instance state is tested in a form the analysis does not follow ({opaque[0]})')
-            # witness from the order domain: what the reason does to an attempt that was billed
-            wit = ''
-            body = trig.ast.body
-            for label, old, new, out in af.transitions(body, w, special):
-                if new['reason'] == value and old['reason'] is not None and old['end_time'] is not None and old['reason'] not in zeroing and out['reason'] == old['reason'] \
-                        and not billed_never_decreases(old, out):
-                    wit = (f' E.g. an attempt that already ended: OLD={realise(old)}, row written={realise(new)}, row stored after the trigger={realise(out)}: '
-                           f'billed time drops to 0 and the stored reason stays \'{out["reason"]}\'.')
-                    break
-            if verdicts:
-                fr, subj, acc = verdicts[0]
-                may = (f'may be in {sorted(acc[1])}' if acc[0] else f'is only known not to be in {sorted(acc[1])}')
-                where = f'at this call the state of `{subj}` {may} (in {fr.label.split("::", 1)[1]})'
-            else:
-                where = 'no enclosing or preceding test constrains the instance state on any hop of the chain'
-            ctx.bad('R4', cons, f'the reason \'{value}\' makes attempts_before_update set {", ".join(zeroing[value])} = NULL for every attempt the statement touches (billed time 0, not an error only for '
-                    f'an instance that never activated, state in {sorted(pending)}); {where}. Chain: {chain}.{wit}', src.m.path, src.call.lineno,
-                    extra={'chain': chain, 'reason': value})
+            if bad is None:
+                bad = (w, chain, verdicts)
+        if bad is None:
+            ctx.ok('R4', cons, {'chains': good, 'never_activated_states': sorted(pending)})
+            continue
+        w, chain, verdicts = bad
+        # witness from the order domain: what the reason does to an attempt that was billed
+        wit = ''
+        for label, old, new, out in af.transitions(trig.ast.body, w, special):
+            if new['reason'] == value and old['reason'] is not None and old['end_time'] is not None and old['reason'] not in zeroing and out['reason'] == old['reason'] \
+                    and not billed_never_decreases(old, out):
+                wit = (f' E.g. an attempt that already ended: OLD={realise(old)}, row written={realise(new)}, row stored after the trigger={realise(out)}: '
+                       f'billed time drops to 0 and the stored reason stays \'{out["reason"]}\'.')
+                break
+        if verdicts:
+            fr, subj, acc = verdicts[0]
+            may = (f'may be in {sorted(acc[1])}' if acc[0] else f'is only known not to be in {sorted(acc[1])}')
+            where = f'the state of `{subj}` {may} (tests seen from {fr.label.split("::", 1)[1]} down to the CALL)'
+        else:
+            where = 'no enclosing or preceding test constrains the instance state on any hop of the chain'
+        ctx.bad('R4', cons, f'the reason \'{value}\' makes attempts_before_update set {", ".join(zeroing[value])} = NULL for every attempt the statement touches (billed time 0, not an error only for '
+                f'an instance that never activated, state in {sorted(pending)}); {where}. Chain: {chain}.{wit}', src.m.path, src.call.lineno,
+                extra={'chain': chain, 'reason': value})
+
+
+def _chain_precondition(frames: Tuple[af.Frame, ...], pending: Set[str]) -> Tuple[bool, List[Tuple[af.Frame, str, StateSet]], List[str]]:
+    verdicts: List[Tuple[af.Frame, str, StateSet]] = []
+    opaque: List[str] = []
+    conds_of = [path_conditions(fr.m, fr.fn, fr.call) if fr.fn is not None else [] for fr in frames]
+    # (1) one hop alone confines the state of an object it passes on
+    for fr, conds in zip(frames, conds_of):
+        for subj in _subjects(fr.call):
+            facts = StateFacts(subj)
+            acc = TOP
+            for t, pol in conds:
+                acc = _inter(acc, facts.when_true(t) if pol else facts.when_false(t))
+            opaque += facts.opaque
+            if acc[0] and acc[1] <= pending:
+                return True, [], []
+            if acc != TOP:
+                verdicts.append((fr, subj, acc))
+    # (2) the same object followed through the hops (argument / receiver binding): its constraints add up
+    for per in _tracked_subjects(frames):
+        acc = TOP
+        for subj, conds in zip(per, conds_of):
+            if subj is None:
+                continue
+            facts = StateFacts(subj)
+            for t, pol in conds:
+                acc = _inter(acc, facts.when_true(t) if pol else facts.when_false(t))
+        if acc[0] and acc[1] <= pending:       # includes the empty set: the hops exclude each other, the CALL is never reached
+            return True, [], []
+        if acc != TOP:
+            first = next(i for i, x in enumerate(per) if x is not None)
+            verdicts.insert(0, (frames[first], per[first], acc))
+    return False, verdicts, opaque
 
 
 def r0_syntactic(ctx: Ctx, r: sf.Routine) -> None:
